@@ -227,6 +227,25 @@ func (h *handler) OnClose(c gnet.Conn, err error) (action gnet.Action) {
 			w.violate("C01", "close-before-offered", "conn %d: peer sent %d bytes and closed in order, OnClose fired after only %d bytes had been offered to OnTraffic (kernel handed over %d)", cs.idx, ps.sent, cs.offered, cs.sock.ReadBytes)
 		}
 	}
+	// a handler may use the connection inside OnClose: a parting write (best
+	// effort: what is accepted may or may not reach the peer), or a redundant
+	// close, neither of which may start a second teardown
+	if len(cs.cp.CloseW) > 0 || cs.cp.CloseAgain != 0 {
+		cs.inOnClose = true
+		for i := range cs.cp.CloseW {
+			w.doWrite(cs, &cs.cp.CloseW[i], "OnClose")
+		}
+		switch cs.cp.CloseAgain {
+		case 1:
+			w.inCall[task]++
+			_ = c.EventLoop().Close(c)
+			w.inCall[task]--
+		case 2:
+			_ = c.Close()
+		}
+		cs.inOnClose = false
+		w.probes["used-conn-inside-onclose"]++
+	}
 	action = gnet.Action(cs.cp.CloseAct)
 	if action == gnet.Shutdown {
 		if w.inCall[task] > 0 {
@@ -544,10 +563,12 @@ func (r *scriptReader) Read(p []byte) (int, error) {
 // doWrite performs one write operation from inside a callback.
 func (w *World) doWrite(cs *connState, op *WOp, where string) {
 	c := cs.c
-	if cs.closed {
+	if cs.closed && !cs.inOnClose {
 		return
 	}
-	w.checkOutbound(cs, where)
+	if !cs.inOnClose {
+		w.checkOutbound(cs, where)
+	}
 	switch op.M {
 	case "write":
 		id := w.newOpID()
@@ -595,8 +616,12 @@ func (w *World) doWrite(cs *connState, op *WOp, where string) {
 			w.violate("C02", "readfrom-count", "conn %d: ReadFrom of a %d-byte reader returned (%d, %v)", cs.idx, op.N, n, err)
 			return
 		}
-		cs.W = append(cs.W, wEntry{id, op.N})
-		cs.wBytes += op.N
+		if cs.inOnClose {
+			cs.tail = append(cs.tail, wEntry{id, op.N})
+		} else {
+			cs.W = append(cs.W, wEntry{id, op.N})
+			cs.wBytes += op.N
+		}
 		w.inCall[cs.task]++
 		ferr := c.Flush()
 		w.inCall[cs.task]--
@@ -648,6 +673,10 @@ func (w *World) acceptSync(cs *connState, id, want, n int, err error, what strin
 	}
 	if n != want {
 		w.violate("C02", "count", "conn %d: %s of %d bytes returned %d without error", cs.idx, what, want, n)
+		return
+	}
+	if cs.inOnClose {
+		cs.tail = append(cs.tail, wEntry{id, want})
 		return
 	}
 	cs.W = append(cs.W, wEntry{id, want})
